@@ -109,3 +109,7 @@ def run(chk):
     rest = [o for o in chk.obs if id(o) not in taken and not o.ok() and not o.verdict.startswith("uncovered")]
     L1m.settle(chk, rest, lambda: validity_battery(chk.seed), "point formulas (internal)")
     chk.samples = [o.j() for o in chk.obs if "well-defined group element" in o.name or "output satisfies" in o.name][:6]
+
+
+def safety_net(chk):
+    return validity_battery(chk.seed)
